@@ -55,6 +55,7 @@ func (f PicklerFunc) Pickle(x starlark.Value) (module, name string, args starlar
 type Encoder struct {
 	w       writer
 	memo    map[starlark.Value]int
+	memoLen int // number of MEMOIZE opcodes written, i.e. the length of the decoder's memo
 	pickler Pickler
 }
 
@@ -78,8 +79,12 @@ func (e *Encoder) memoized(x starlark.Value) (int, bool) {
 
 func (e *Encoder) memoize(x starlark.Value) {
 	if reflect.TypeOf(x).Comparable() {
-		id := len(e.memo)
-		e.memo[x] = id
+		// The ID of an object is its index in the decoder's memo, which grows by one for
+		// every MEMOIZE. It is not the size of the map: a value can be memoized twice (a
+		// pickler may describe a value by a placeholder while the value itself is still
+		// being written), and the later entry replaces the earlier one here.
+		e.memo[x] = e.memoLen
+		e.memoLen++
 
 		e.w.WriteByte(opMEMOIZE)
 	}
